@@ -100,6 +100,7 @@ def corruptions(doc, ver, clsname=None, dictionary=None):
             if d["allowed"]:
                 out.append(_set(p, "vocab:case", d["allowed"][0].upper() if d["allowed"][0].upper() != d["allowed"][0] else d["allowed"][0].lower()))
                 out.append(_set(p, "vocab:suffix", d["allowed"][0] + "x"))
+                out.append(_set(p, "vocab:trailing-newline", d["allowed"][0] + "\n"))
         elif k == "id":
             prefix = d["prefix"]
             for name, u in BAD_UUIDS:
@@ -132,6 +133,7 @@ def corruptions(doc, ver, clsname=None, dictionary=None):
             out.append(_set(p, "dict:null-value", {"key": None}))
             out.append(_set(p, "dict:empty-list-value", {"key": []}))
             out.append(_set(p, "dict:empty-key", {"": 1}))
+            out.append(_set(p, "dict:trailing-newline-key", {"abc\n": 1}))
         elif k == "hashes":
             out.append(_set(p, "hash:unknown-alg", {"FOO-99": "abcd"}))
             out.append(_set(p, "hash:custom-alg", {"x_custom": "abcd"}))
@@ -141,13 +143,15 @@ def corruptions(doc, ver, clsname=None, dictionary=None):
             out.append(_set(p, "hash:other-version-alg", {"SHA-224" if ver == "2.1" else "TLSH": "a" * (56 if ver == "2.1" else 70)}))
             out.append(_set(p, "hash:respelled", {"md5": "d41d8cd98f00b204e9800998ecf8427e"}))
             out.append(_set(p, "hash:md5-trailing-newline", {"MD5": "d41d8cd98f00b204e9800998ecf8427e\n"}))
+            out.append(_set(p, "hash:sha256-trailing-newline", {"SHA-256": "ab" * 32 + "\n"}))
+            out.append(_set(p, "hash:md6-not-hex", {"MD6": "a" * 32 + "zzz"}))
         elif k == "hex":
             out.extend([_set(p, "hex:odd", "abc"), _set(p, "hex:non-hex", "zz"), _set(p, "hex:0x", "0x1f"), _set(p, "hex:trailing-newline", "ab\n")])
         elif k == "binary":
-            out.extend([_set(p, "b64:garbage", "!!!"), _set(p, "b64:bad-padding", "abc"), _set(p, "b64:inner-space", "ab cd"), _set(p, "b64:urlsafe", "ab-_")])
+            out.extend([_set(p, "b64:garbage", "!!!"), _set(p, "b64:bad-padding", "abc"), _set(p, "b64:inner-space", "ab cd"), _set(p, "b64:urlsafe", "ab-_"), _set(p, "b64:trailing-newline", "AAAA\n")])
         elif k == "selector":
             out.extend([_set(p, "selector:absent", "no_such_property"), _set(p, "selector:index-past-end", "labels.[99]"),
-                        _set(p, "selector:syntax", "a..b"), _set(p, "selector:upper-first", "Name")])
+                        _set(p, "selector:syntax", "a..b"), _set(p, "selector:upper-first", "Name"), _set(p, "selector:trailing-newline", "type\n")])
         elif k == "extensions":
             out.append(_set(p, "ext:unknown", {"x-unknown-ext": {"a": 1}}))
             out.append(_set(p, "ext:nondict-value", {"archive-ext": 5}))
